@@ -97,15 +97,15 @@ void h_timeout_check(void)
 	r = iv_fd_timeout_check(&v_state, abs);
 
 	__CPROVER_assert(r == 0 || r == 1, "verdict is 0 or 1");
-	__CPROVER_assert(INV(), "[C04,C06,C07] invariant kept: the kernel timer is armed iff the same deadline was seen five times, and then at that deadline");
+	__CPROVER_assert(INV(), "[C04,C06,C07,C05] invariant kept: the kernel timer is armed iff the same deadline was seen five times, and then at that deadline");
 	__CPROVER_assert(IMPLIES(r == 1, g_armed && (abs == NULL || !timespec_gt(&g_armed_at, abs))),
-			 "[C04,C07,C06] an unbounded kernel wait is chosen only while the kernel timer is armed at or before the deadline: no oversleep, the loop cannot hang past a due timer");
+			 "[C04,C07,C06,C05] an unbounded kernel wait is chosen only while the kernel timer is armed at or before the deadline: no oversleep, the loop cannot hang past a due timer");
 	__CPROVER_assert(IMPLIES(verif_in.count == 5 && abs != NULL && timespec_gt(&v_state.last_abs, abs) && !(verif_in.last_sec == v_abs.tv_sec && verif_in.last_nsec == v_abs.tv_nsec), 1), "trivial");
 	__CPROVER_assert(IMPLIES(verif_in.count == 5 && abs != NULL && timespec_gt(&g_armed_at, abs) && r == 1, 0), "[C04,C07] a strictly earlier deadline never rides on the old kernel timer");
 	__CPROVER_assert(IMPLIES(verif_in.count == 5 && abs != NULL &&
 			 (abs->tv_sec < verif_in.last_sec || (abs->tv_sec == verif_in.last_sec && abs->tv_nsec < verif_in.last_nsec)),
 			 g_clear_calls == 1 && v_state.last_abs_count == 1 && r == 0),
-			 "[C04,C06] a strictly earlier deadline (a task's zero timeout included) disarms the kernel timer and restarts the count");
+			 "[C04,C06,C05] a strictly earlier deadline (a newly registered earlier timer, a task's zero timeout) disarms the kernel timer and restarts the count");
 	__CPROVER_assert(g_set_calls <= 1 && IMPLIES(g_set_calls == 1, v_state.last_abs_count == 5 && verif_in.count == 4),
 			 "[C04] the kernel timer is armed exactly when the same deadline is seen for the fifth time");
 	__CPROVER_assert(IMPLIES(g_set_calls == 1 && !verif_in.set_ok, r == 0 && g_switched),
